@@ -38,7 +38,7 @@ def czs(l):
 def correspondence(ctx, gen_ok):
     import skfem
     rng = np_seed(ctx, 18)
-    reix_cases, tag_cases, fac_cases, split_cases, ext_cases, join_cases, carry_cases, remap_cases, vmap_cases = [], [], [], [], [], [], [], [], []
+    reix_cases, tag_cases, fac_cases, split_cases, ext_cases, join_cases, carry_cases, remap_cases, vmap_cases, opt_cases = [], [], [], [], [], [], [], [], [], []
     # (a) _reix on arbitrary index matrices
     base = skfem.MeshTri1()
     for k in range(ctx.n(40, 200)):
@@ -81,6 +81,11 @@ def correspondence(ctx, gen_ok):
         el = rng.choice(nt, size=kk, replace=False).astype(np.int32)
         if rng.random() < 0.5:
             el = np.sort(el)
+        for sb in (False, True):
+            for ss in (False, True):
+                Mo = m.restrict(el, skip_boundaries=sb, skip_subdomains=ss)
+                opt_cases.append((f'({cbools([sb, ss])})', cbools([Mo.boundaries is not None, Mo.subdomains is not None]),
+                                  ('options', sb, ss)))
         M = m.restrict(el)
         for nm, s in sub.items():
             tag_cases.append((f'(inl ({cnat(nt)}, {cnats(el)}, {cnats(s)}))', czs(np.asarray(M.subdomains[nm])),
@@ -219,6 +224,9 @@ Definition split (c : (nat * (nat * nat) * mat nat * list nat) + (nat * mat nat)
   | inr (0, t) => (split_rows t gen_hex_split, [])
   | inr (_, t) => (split_rows t gen_wedge_split, [])
   end.
+Definition opts (c : list bool) : list bool :=
+  let sb := nth 0 c false in let ss := nth 1 c false in
+  [gen_restrict_keeps_boundaries sb ss; gen_restrict_keeps_subdomains sb ss].
 Definition vmap (c : nat * mat nat * list nat) : list nat :=
   let '(M, edofs, el) := c in gen_restrict_vertex_map M (gen_restrict_ix 0 edofs el).
 Definition extr (c : nat * list nat * list nat * list nat * mat nat) : list nat * list bool * mat nat :=
@@ -258,6 +266,7 @@ Definition carry (c : (nat * mat nat * mat nat * list nat) +
                          defs=defs, nontrivial=lambda r: 2 <= r[2]),
         lambda: ctx.corr('splits', imp, 'split', '(pair_eqb natss_eqb nats_eqb)', split_cases, defs=defs,
                          nontrivial=lambda r: r[2] >= 2),
+        lambda: ctx.corr('restrict_options', imp, 'opts', '(list_eqb Bool.eqb)', opt_cases, defs=defs, nontrivial=lambda r: r[1] or r[2]),
         lambda: ctx.corr('restrict_vertex_map', imp, 'vmap', 'nats_eqb', vmap_cases, defs=defs, nontrivial=lambda r: r[2] >= 2),
         lambda: ctx.corr('extrude', imp, 'extr', 'extr_eqb', ext_cases, defs=defs, nontrivial=lambda r: r[1] >= 2),
         lambda: ctx.corr('join_and_dedupe', imp, 'joined', '(pair_eqb keys_eqb natss_eqb)', join_cases, defs=defs,
